@@ -52,7 +52,7 @@ int main(int argc, char **argv) {
     QStringList vals = {"", "m", "hello world", "%{message}", "%", "%%", "{", "}", "a:b", "x<y>z^!", QString::fromUtf8("\xf0\x9f\x98\x80 astral"), QString::fromUtf8("z\xe2\x80\x8dw joiner"),
                         QString::fromUtf8("\xe2\x80\x8c"), "tab\tnl\n", QString(40, 'w'), "?1,1", "endif", "%{if-debug}"};
     if (zwsp) vals = QStringList{QString::fromUtf8("a\xe2\x80\x8b""b"), QString::fromUtf8("m\xe2\x80\x8b"), QString::fromUtf8("\xe2\x80\x8b"), QString::fromUtf8("\xe2\x80\x8b\xe2\x80\x8bx")};
-    QStringList lits = {" ", "[", "] ", " - ", "#", "(", ")", "abc", "%%", "::", " | ", "<", ">"};
+    QStringList lits = {" ", "[", "] ", " - ", "#", "(", ")", "abc", "%%", "::", " | ", "<", ">", "x%%{message}", "50%%{user?} ", "%%{type:>8}"};   // the last three: an ESCAPED placeholder look-alike is literal text
     QList<QChar> fills = {' ', '*', '0', '_', '<', '>', '^', '!', '1', 'x', QChar(0x00e9)};
     for (int run = 0; run < runs; ++run) {
         st = seed * 104729ULL + run; std::vector<Tok> toks; QString pattern; int cond = -1; int n = 1 + rnd(7);
